@@ -9,12 +9,13 @@
      levinson_no_raise a returned stage never has error power "<= 0"
      hermtoep_solves   HERMTOEP(T0,T,Z) returns X with sum_j r(i-j) X_j = Z_i for every row i (r = T0::T)
      hermtoep_raises   HERMTOEP fails only at a stage whose error power tests "<= 0"
+     toeplitz_solves   TOEPLITZ(T0,TC,TR,Z) returns X with sum_j t(i-j) X_j = Z_i for every row i of the
+                       general (non-Hermitian) Toeplitz matrix with first column T0::TC and first row T0::TR
    NOT PROVED (stated in DESIGN.md 4/C10): positive definiteness => P_m > 0 and |k_m| < 1 in R
-   (needs the LDL^H reading of the recursion), root location (stability), the general TOEPLITZ
-   and CHOLESKY solvers (library back ends: correspondence + residual search only). *)
-(* (the general TOEPLITZ recursion is modelled and tied by correspondence; its theorem is not proved) *)
+   (needs the LDL^H reading of the recursion), root location (stability), and the CHOLESKY solvers
+   (numpy/scipy library back ends: residual search only). *)
 Require Import Spectrum.Theory.Ops Spectrum.Theory.Sum Spectrum.Theory.Vec Spectrum.Model.Levinson
-               Spectrum.Proofs.LevinsonTheory Spectrum.Proofs.HermtoepTheory Spectrum.Instances.QcC.
+               Spectrum.Proofs.LevinsonTheory Spectrum.Proofs.HermtoepTheory Spectrum.Proofs.ToeplitzTheory Spectrum.Instances.QcC.
 From Coq Require Import QArith Qcanon.
 
 Section C10.
@@ -59,6 +60,13 @@ Theorem hermtoep_raises (T0 : F) (T Z : list F) :
   exists m A P X, (m < length T)%nat /\ herm_iter T Z T0 m = Some (A, P, X) /\
     let k := (- lev_delta T A m) / P in le0 (P * (1 - k * conj k)) = true.
 Proof. exact (hermtoep_raises_thm T0 T Z). Qed.
+
+Theorem toeplitz_solves (T0 : F) (TC TR Z X : list F) :
+  T0 <> 0 -> toeplitz T0 TC TR Z = Some X ->
+  length X = S (length TC) /\
+  forall i, (i <= length TC)%nat ->
+    sumf (S (length TC)) (fun j => nthF X j * tz T0 TC TR (Z.of_nat i - Z.of_nat j)) = nthF Z i.
+Proof. exact (toeplitz_solves_thm T0 TC TR Z X). Qed.
 End C10.
 
 (* non-vacuity: a concrete complex positive-definite sequence meets the hypotheses and the
@@ -81,3 +89,4 @@ Print Assumptions levinson_raises.
 Print Assumptions levinson_no_raise.
 Print Assumptions hermtoep_solves.
 Print Assumptions hermtoep_raises.
+Print Assumptions toeplitz_solves.
